@@ -80,11 +80,11 @@ func (r *Reflog) load(rootGoitPath string, head *Head, refs *Refs) error {
 		}
 
 		// extract recType
-		sp2 := strings.Split(sp1[2], "\t")
+		sp2 := strings.SplitN(sp1[2], "\t", 2)
 		if len(sp2) != 2 {
 			continue
 		}
-		sp3 := strings.Split(sp2[1], ": ")
+		sp3 := strings.SplitN(sp2[1], ": ", 2)
 		if len(sp3) != 2 {
 			continue
 		}
@@ -127,10 +127,16 @@ func (r *Reflog) Show() {
 			referenceString = color.BlueString("HEAD -> ") + fmt.Sprintf("%s, ", record.Head) + referenceString
 		}
 
+		// a record without target commit (e.g. the old name of a renamed branch) has no hash
+		hashString := strings.Repeat("0", 7)
+		if len(record.Hash) > 0 {
+			hashString = record.Hash.String()[:7]
+		}
+
 		if referenceString == "" {
-			fmt.Printf("%s HEAD@{%d}: %s: %s\n", color.YellowString(record.Hash.String()[:7]), i, record.recType, record.message)
+			fmt.Printf("%s HEAD@{%d}: %s: %s\n", color.YellowString(hashString), i, record.recType, record.message)
 		} else {
-			fmt.Printf("%s (%s) HEAD@{%d}: %s: %s\n", color.YellowString(record.Hash.String()[:7]), referenceString, i, record.recType, record.message)
+			fmt.Printf("%s (%s) HEAD@{%d}: %s: %s\n", color.YellowString(hashString), referenceString, i, record.recType, record.message)
 		}
 	}
 }
